@@ -444,7 +444,7 @@ func (s *sess) jobsLen() string {
 
 // observe prints the result line after the implementation has become stable.
 func (s *sess) observe(e *lp.Exec) {
-	if !quiesce.Wait(5 * time.Second) {
+	if !quiesce.Wait(30 * time.Second) {
 		_, who := quiesce.Busy()
 		e.P("timeout: the implementation did not reach a stable state (%s)", who)
 		return
@@ -676,7 +676,7 @@ func (s *sess) burst(e *lp.Exec, c, n, k int, hold bool) {
 		s.jobs[holdJob.id] = holdJob
 		s.mu.Unlock()
 		go s.call(holdJob)
-		quiesce.Wait(5 * time.Second)
+		quiesce.Wait(30 * time.Second)
 	}
 	var wg sync.WaitGroup
 	startGun := make(chan struct{})
@@ -710,7 +710,7 @@ func (s *sess) burst(e *lp.Exec, c, n, k int, hold bool) {
 		wg.Wait()
 		close(holdJob.gate)
 	}
-	ok := quiesce.Wait(10 * time.Second)
+	ok := quiesce.Wait(30 * time.Second)
 	wg.Wait()
 	s.mu.Lock()
 	var order []string
@@ -745,7 +745,7 @@ func (s *sess) finish(e *lp.Exec, lg *capLogger) {
 		name = "c19-async-fifo"
 	}
 	for round := 0; round < 10000; round++ {
-		quiesce.Wait(5 * time.Second)
+		quiesce.Wait(30 * time.Second)
 		progressed := false
 		s.mu.Lock()
 		parked := s.parked
@@ -772,7 +772,7 @@ func (s *sess) finish(e *lp.Exec, lg *capLogger) {
 			break
 		}
 	}
-	if !quiesce.Wait(5 * time.Second) {
+	if !quiesce.Wait(30 * time.Second) {
 		e.Oracle(name, "hang: the implementation did not become stable after all jobs were released")
 	}
 	s.mu.Lock()
